@@ -26,6 +26,10 @@ pub enum Verb {
     QueryClustersHashes,
     SoftStop,
     HardStop,
+    Status,
+    QueryMetrics,
+    /// a state file holding two AddCluster requests: every worker receives both
+    LoadState,
     /// two clients, each sending AddCluster concurrently
     TwoClients,
 }
@@ -45,17 +49,41 @@ fn request(v: Verb, tag: &str) -> Request {
         Verb::AddCluster | Verb::TwoClients => RequestType::AddCluster(crate::cfgspace::cluster(tag)).into(),
         Verb::QueryClustersHashes => RequestType::QueryClustersHashes(QueryClustersHashes {}).into(),
         Verb::SoftStop => RequestType::SoftStop(SoftStop {}).into(),
+        Verb::Status => RequestType::Status(Default::default()).into(),
+        Verb::QueryMetrics => RequestType::QueryMetrics(sozu_command_lib::proto::command::QueryMetricsOptions { list: false, cluster_ids: vec![], backend_ids: vec![], metric_names: vec![], no_clusters: false, workers: true }).into(),
+        Verb::LoadState => RequestType::LoadState(state_file().to_string_lossy().into_owned()).into(),
         Verb::HardStop => RequestType::HardStop(Default::default()).into(),
     }
 }
 
+/// the state file of the LoadState verb (one per process: executions are forked one at a time)
+fn state_file() -> std::path::PathBuf {
+    std::env::temp_dir().join(format!("sozu-verif-c09-{}.state", std::process::id()))
+}
+
+fn write_state_file() {
+    let mut st = sozu_command_lib::state::ConfigState::new();
+    for id in ["la", "lb"] {
+        let r: Request = RequestType::AddCluster(crate::cfgspace::cluster(id)).into();
+        st.dispatch(&r).unwrap_or_else(|e| crate::common::machinery_error(&format!("state file: {e}")));
+    }
+    let mut f = std::fs::File::create(state_file()).unwrap_or_else(|e| crate::common::machinery_error(&format!("state file: {e}")));
+    st.write_requests_to_file(&mut f).unwrap_or_else(|e| crate::common::machinery_error(&format!("state file: {e}")));
+}
+
 pub fn run_case(case: &Case) -> Run {
+    if case.verb == Verb::LoadState {
+        write_state_file();
+    }
     let clients: Vec<Vec<Request>> = match case.verb {
         Verb::TwoClients => vec![vec![request(Verb::AddCluster, "ca")], vec![request(Verb::AddCluster, "cb")]],
         v => vec![vec![request(v, "c1")]],
     };
     let setup = HubSetup { workers: case.workers.clone(), clients, reverse_worker_order: case.reverse, worker_timeout_s: WORKER_TIMEOUT_S };
     let (mut exec, _) = hub::run_hub(setup, vec![], 120);
+    if case.verb == Verb::LoadState {
+        let _ = std::fs::remove_file(state_file());
+    }
     let mut violations: Vec<(String, String)> = vec![];
     let verb = format!("{:?}", case.verb);
     let mut flag = |k: String, d: String| violations.push((format!("C09|{verb}|{k}"), d));
@@ -69,16 +97,32 @@ pub fn run_case(case: &Case) -> Run {
     for (ci, c) in sc.clients.iter().enumerate() {
         // the behaviours that apply to this client's request
         // (a worker that closed its channel while handling an earlier request is gone for this one)
-        let behaviours: Vec<Behaviour> = case
-            .workers
-            .iter()
-            .map(|w| if w.iter().take(ci).any(|b| matches!(b, Behaviour::Close | Behaviour::OkThenClose)) { Behaviour::Close } else { w.get(ci).copied().unwrap_or(Behaviour::Ok) })
-            .collect();
+        let behaviours: Vec<Behaviour> = if case.verb == Verb::LoadState {
+            // one client request, two worker requests per worker: all of them count
+            case.workers
+                .iter()
+                .flat_map(|w| {
+                    let mut first = w.first().copied().unwrap_or(Behaviour::Ok);
+                    let second = if matches!(first, Behaviour::Close | Behaviour::OkThenClose) { Behaviour::Close } else { w.get(1).copied().unwrap_or(Behaviour::Ok) };
+                    // an answer still pending when the worker closes its channel is never sent
+                    if first == Behaviour::OkLate && matches!(second, Behaviour::Close | Behaviour::OkThenClose) {
+                        first = Behaviour::Close;
+                    }
+                    [first, second]
+                })
+                .collect()
+        } else {
+            case.workers
+                .iter()
+                .map(|w| if w.iter().take(ci).any(|b| matches!(b, Behaviour::Close | Behaviour::OkThenClose)) { Behaviour::Close } else { w.get(ci).copied().unwrap_or(Behaviour::Ok) })
+                .collect()
+        };
         let finals: Vec<&(u64, sozu_command_lib::proto::command::Response)> = c.responses.iter().filter(|(_, r)| r.status != ResponseStatus::Processing as i32).collect();
         // a soft stop has no deadline by design: a worker that answers late
         // acknowledges, and one that is still silent may simply be draining
-        let soft = case.verb == Verb::SoftStop;
-        if soft && behaviours.iter().any(|b| matches!(b, Behaviour::Silent | Behaviour::ProcessingOnly)) && !behaviours.contains(&Behaviour::Close) {
+        // (so has LoadState)
+        let soft = matches!(case.verb, Verb::SoftStop | Verb::LoadState);
+        if soft && behaviours.iter().any(|b| matches!(b, Behaviour::Silent | Behaviour::ProcessingOnly)) {
             obs.push(format!("client{ci}: soft stop with a worker that never finishes: not judged"));
             continue;
         }
@@ -115,7 +159,7 @@ pub fn run_case(case: &Case) -> Run {
         // timing: at once when every worker answered; by the worker timeout (+ one loop turn) otherwise
         let everyone_answers = behaviours.iter().all(|b| matches!(b, Behaviour::Ok | Behaviour::Failure | Behaviour::DuplicateOk | Behaviour::ProcessingThenOk | Behaviour::OkThenClose));
         let limit = if everyone_answers { 1_000 } else { WORKER_TIMEOUT_S as u64 * 1000 + 1_500 };
-        if ms - sent_ms > limit && case.verb != Verb::SoftStop {
+        if ms - sent_ms > limit && !soft {
             flag(format!("answer-late:{}", if everyone_answers { "all-answered" } else { "after-deadline" }), format!("client {ci}: final answer after {} ms, limit {limit} ms (workers {behaviours:?})", ms - sent_ms));
         }
         // answers must not be cross-wired between clients
@@ -131,7 +175,8 @@ pub fn run_case(case: &Case) -> Run {
         } else {
             "other"
         };
-        if !(case.verb == Verb::SoftStop && ctx == "worker-never-answers") {
+        let never = case.workers.iter().flatten().any(|b| matches!(b, Behaviour::Silent | Behaviour::ProcessingOnly));
+        if !(matches!(case.verb, Verb::SoftStop | Verb::LoadState) && never) {
             flag(format!("main-process-{end:?}:{ctx}").to_lowercase(), format!("the run ended with {end:?} ({stop_reason})"));
         }
     }
@@ -141,7 +186,7 @@ pub fn run_case(case: &Case) -> Run {
 
 fn cases(tier: Tier) -> Vec<Case> {
     let mut v = vec![];
-    let verbs = [Verb::AddCluster, Verb::QueryClustersHashes, Verb::SoftStop, Verb::HardStop];
+    let verbs = [Verb::AddCluster, Verb::QueryClustersHashes, Verb::SoftStop, Verb::HardStop, Verb::Status, Verb::QueryMetrics];
     let max_w = if tier == Tier::Quick { 2 } else { 3 };
     for verb in verbs {
         for w in 1..=max_w {
@@ -158,6 +203,22 @@ fn cases(tier: Tier) -> Vec<Case> {
                         continue;
                     }
                     v.push(Case { verb, workers: workers.clone(), reverse });
+                }
+            }
+        }
+    }
+    // LoadState: two worker requests per worker, every pair of behaviours (one worker), a reduced set for two workers
+    for a0 in Behaviour::ALL {
+        for a1 in Behaviour::ALL {
+            v.push(Case { verb: Verb::LoadState, workers: vec![vec![a0, a1]], reverse: false });
+        }
+    }
+    let few = [Behaviour::Ok, Behaviour::Failure, Behaviour::DuplicateOk, Behaviour::OkThenClose];
+    for a0 in few {
+        for a1 in few {
+            for b0 in few {
+                for b1 in few {
+                    v.push(Case { verb: Verb::LoadState, workers: vec![vec![a0, a1], vec![b0, b1]], reverse: false });
                 }
             }
         }
